@@ -445,7 +445,9 @@ def _run_dill_twin(spec):
         bad = False
         for tw in twins:
             try:
-                o2 = sched_apply(tw[0], ev, tw[1], amb)
+                # a restored scheduler lives in another process: the global generators are in another state there. Only
+                # MOASHA (no random_seed, draws from the global generators by design) is compared under equal ambient state
+                o2 = sched_apply(tw[0], ev, tw[1], amb if name == "moasha" else amb + 7777 + tw[2])
             except Exception as e:
                 o2 = ("raised", type(e).__name__, str(e)[:200])
             compared += 1
